@@ -24,8 +24,18 @@ type snap struct {
 	seen map[uintptr]bool
 }
 
+// mix64 is the splitmix64 finaliser: small integers and neighbouring values spread over all 64 bits.
+func mix64(z uint64) uint64 {
+	z ^= z >> 30
+	z *= 0xbf58476d1ce4e5b9
+	z ^= z >> 27
+	z *= 0x94d049bb133111eb
+	z ^= z >> 31
+	return z
+}
+
 func (s *snap) mix(x uint64) {
-	s.sum ^= x + 0x9e3779b97f4a7c15 + (s.sum << 6) + (s.sum >> 2)
+	s.sum = mix64(s.sum*0x9e3779b97f4a7c15 + mix64(x+0x632be59bd9b4e019))
 }
 
 func (s *snap) str(x string) {
